@@ -202,6 +202,9 @@ class World:
         self.clock = VirtualClock(lambda: self.seams, faults=plan.get("clock_faults"))
         self.disk = SimDisk(lambda: self.seams, self.cwd, bufsize=plan["config"].get("buffer", 8192))
         self.osshim = OsShim(self.disk)
+        self.disk.on_commit = self.note_commit
+        self._expected = None
+        self.high_water = {}          # canonical parameter combination -> most repetitions ever durably saved
         self.calls = {}
         self.serial = 0
         self.exec_ok = {}
@@ -251,6 +254,70 @@ class World:
         parts = [get_partial_results_filename(base, cp, cfg.get("partial_folder", "partial_results"))
                  for cp in sp.get_unpacked_params_list()]
         return final, parts
+
+    # ---- observer: high-water mark of durably saved work ---------------------
+    def expected_partial_paths(self):
+        if self._expected is None:
+            from simkit.seams import _norm
+            self._expected = set()
+            for cfg in self.cfgs.values():
+                if cfg.get("results_name") is not None:
+                    self._expected |= {_norm(p, self.cwd) for p in self.names(cfg)[1]}
+        return self._expected
+
+    def note_commit(self, path):
+        if path not in self.expected_partial_paths():
+            return
+        d = self.read_partial(path, None, None)
+        if d["state"] != "ok" or d["rep"] != len(d["ids"]):
+            return
+        key = path + "|" + json.dumps(d["params"], sort_keys=True, default=str)
+        if d["rep"] > self.high_water.get(key, (0,))[0]:
+            self.high_water[key] = (d["rep"], list(d["ids"]))
+
+    def final_file_ids(self, final_name):
+        from simkit.seams import _norm
+        p = _norm(final_name, self.cwd)
+        if p not in self.disk.files:
+            return None
+        data = bytes(self.disk.files[p])
+        try:
+            if p.endswith(".json"):
+                dd = json.loads(data.decode("utf-8"))
+                return [[int(x) for x in rr["value_list"]] for rr in dd["results"]["ids"]]
+            obj = pickle.loads(data)
+            return [[int(x) for x in rr._value_list] for rr in obj._results["ids"]]
+        except Exception:
+            return None
+
+    def check_not_lost(self, pid, res, step, cfg, final_name, durable, after_fault):
+        """Work that was once durably saved for a parameter combination is still
+        there (same or more repetitions, in its partial file or in the final
+        results file) when the next process starts."""
+        if final_name is None:
+            return
+        from simkit.seams import _norm
+        vs = variations_of(cfg)
+        parts = self.names(cfg)[1]
+        fin = None
+        for v, d in enumerate(durable):
+            key = _norm(parts[v], self.cwd) + "|" + json.dumps(canon_params(vs[v]), sort_keys=True, default=str)
+            hw = self.high_water.get(key)
+            if hw is None:
+                continue
+            if d["state"] == "ok" and d["rep"] >= hw[0]:
+                continue
+            if d["state"] in ("foreign", "foreign_index_only"):
+                continue
+            if fin is None:
+                fin = self.final_file_ids(final_name) or []
+            if v < len(fin) and len(fin[v]) >= 1:
+                continue      # a loadable results file holds a finished result for this combination
+            add_violation(res, pid + ".durable_not_lost", step,
+                          "variation %d had %d repetitions durably saved (ids %s); now its partial file is %s and the results file does not hold them" % (
+                              v, hw[0], hw[1][:6], {kk: d.get(kk) for kk in ("state", "rep", "why")}),
+                          {"after_fault": after_fault, "file_state": d["state"]})
+            return
 
     # ---- trusted reader of the disk ---------------------------------------
     def read_partial(self, path, expect_params, expect_index):
@@ -545,6 +612,10 @@ def execute(plan, record_last=False, record_lines=False):
             rep_max = inc.get("set_rep_max") if inc.get("set_rep_max") is not None else (
                 w.cur_rep_max if same else cfg["rep_max"])
             final_name, parts, durable = w.observe_durable(cfg)
+            if k > 0:
+                w.check_not_lost(pid, res, k, cfg, final_name, durable, had_fault)
+                if res["status"] != "ok":
+                    break
             pred = w.predict(pname, cfg, inc["call"], rep_max, durable)
             if pred["undefined"]:
                 bump(w.probes, "plan_outside_quantifier(index-only mismatch)")
